@@ -207,20 +207,114 @@ func b2i(b bool) int {
 
 func cloneTags(t osm.Tags) osm.Tags { return append(osm.Tags(nil), t...) }
 
-func wayCase(class string, ids []int64, tags osm.Tags) *wire.Case {
-	w := &osm.Way{ID: 7, Version: 1, Visible: true, Tags: cloneTags(tags)}
+// wn is one way node as handed to the implementation: a bare ref (ann == false: Version,
+// ChangesetID, Lat, Lon all zero) or an annotated node. lat/lon are in units of 1e-7 degree.
+type wn struct {
+	id       int64
+	ann      bool
+	ver, cs  int64
+	lat, lon int64
+}
+
+func idsOf(ns []wn) []int64 {
+	ids := make([]int64, len(ns))
+	for i, n := range ns {
+		ids[i] = n.id
+	}
+	return ids
+}
+
+// annotation patterns for a list of refs. Only the refs may matter for Way.Polygon.
+//
+//	0 bare refs
+//	1 annotated, every position its own location and version (so EQUAL ids at both ends carry
+//	  DIFFERENT locations/versions when the way is closed)
+//	2 annotated, first and last position on the SAME location (so DIFFERENT ids at both ends
+//	  carry IDENTICAL locations when the way is open: a duplicate node on the same spot)
+//	3 only the two end nodes annotated, same location
+//	4 annotated, all nodes on one spot
+//	5 only the first node annotated / 6 only the last node annotated (same spot as pattern 2)
+//	7 annotated with version != 0 but location 0,0 everywhere
+const nPatterns = 8
+
+func annotate(ids []int64, pat int) []wn {
+	ns := make([]wn, len(ids))
+	last := len(ids) - 1
 	for i, id := range ids {
-		// everything but the ID varies from node to node: only the ID may matter
-		w.Nodes = append(w.Nodes, osm.WayNode{ID: osm.NodeID(id), Version: i, ChangesetID: osm.ChangesetID(i * 3), Lat: float64(i), Lon: float64(-i)})
+		n := wn{id: id}
+		own := wn{id: id, ann: true, ver: int64(i + 1), cs: int64(3*i + 1), lat: 10000000 + int64(i)*1000, lon: -20000000 - int64(i)*1000}
+		spot := wn{id: id, ann: true, ver: int64(i + 1), cs: int64(3*i + 1), lat: 515000000, lon: -1234567}
+		switch pat {
+		case 1:
+			n = own
+		case 2:
+			n = own
+			if i == 0 || i == last {
+				n = spot
+			}
+		case 3:
+			if i == 0 || i == last {
+				n = spot
+			}
+		case 4:
+			n = spot
+		case 5:
+			if i == 0 {
+				n = spot
+			}
+		case 6:
+			if i == last {
+				n = spot
+			}
+		case 7:
+			n = wn{id: id, ann: true, ver: int64(i + 1), cs: 1}
+		}
+		ns[i] = n
+	}
+	return ns
+}
+
+var patCounter int
+
+// wayCase runs Way.Polygon on the refs ids; the annotation pattern rotates (half of the
+// cases bare, the others through patterns 1..7).
+func wayCase(class string, ids []int64, tags osm.Tags) *wire.Case {
+	patCounter++
+	pat := 0
+	if patCounter%2 == 0 {
+		pat = 1 + (patCounter/2)%(nPatterns-1)
+	}
+	return wayCaseN(class, annotate(ids, pat), tags)
+}
+
+func wayCaseN(class string, ns []wn, tags osm.Tags) *wire.Case {
+	ids := idsOf(ns)
+	w := &osm.Way{ID: 7, Version: 1, Visible: true, Tags: cloneTags(tags)}
+	var shown []interface{}
+	for _, n := range ns {
+		if n.ann {
+			w.Nodes = append(w.Nodes, osm.WayNode{ID: osm.NodeID(n.id), Version: int(n.ver), ChangesetID: osm.ChangesetID(n.cs),
+				Lat: float64(n.lat) / 1e7, Lon: float64(n.lon) / 1e7})
+			shown = append(shown, map[string]interface{}{"id": n.id, "version": n.ver, "changeset": n.cs, "lat_e7": n.lat, "lon_e7": n.lon})
+		} else {
+			w.Nodes = append(w.Nodes, osm.WayNode{ID: osm.NodeID(n.id)})
+			shown = append(shown, map[string]interface{}{"id": n.id})
+		}
 	}
 	obs := callWay(w)
 	c := &wire.Case{Class: class}
-	c.Int(1).Ints(ids)
+	c.Int(1).Len(len(ns))
+	for _, n := range ns {
+		c.Int(n.id).Bool(n.ann)
+		if n.ann {
+			c.Int(n.ver).Int(n.cs).Int(n.lat).Int(n.lon)
+		}
+	}
 	putTags(c, tags)
 	c.Int(int64(obs))
-	d := map[string]interface{}{"call": "Way.Polygon", "node_ids": ids, "tags": showTags(tags), "observed": obsName(obs)}
+	d := map[string]interface{}{"call": "Way.Polygon", "node_ids": ids, "way_nodes": shown, "tags": showTags(tags), "observed": obsName(obs)}
 	if distinctKeys(tags) {
-		exp := specWay(ids, tags)
+		exp := specWay(ids, tags) // from the refs alone
 		d["expected"] = exp
 		if obs != b2i(exp) {
 			c.OracleFail = fmt.Sprintf("Way.Polygon() = %v, the published rules say %v", obsName(obs), exp)
@@ -375,7 +469,7 @@ func main() {
 	a := wire.ParseArgs()
 	rng := wire.Rng(a.Seed)
 	w := wire.NewWriter("C18", a.Seed, a.Tier)
-	w.Rule = "single-key sweep (exhaustive): every rule key (run-time table + published table) x (every value listed for any key + specials \"\", no, yes, unlisted, No, ... + byte-order neighbours of the key's own listed values [thorough: of all listed values]) x area in {absent, \"\", no, yes, x}, both tag orders alternating, on a closed 4-ring; length sweep 0..7 x closed/open/all-equal x tag sets; every id sequence over {1,2,3} of length 0..5; near-miss keys (rule key, area, type with a space/colon/s/NUL added, a byte dropped, upper case) with firing values; pairs (list key x any key) x pass/fail/no values x both orders; random tag sets in 3-6 (or all) orders; irrelevant and near-miss keys inserted; duplicate keys (model only); relations: type values x other tags x positions; Tags.Find on present/absent/near-miss keys; the run-time table. distinct = distinct token streams; trivial = none."
+	w.Rule = "single-key sweep (exhaustive): every rule key (run-time table + published table) x (every value listed for any key + specials \"\", no, yes, unlisted, No, ... + byte-order neighbours of the key's own listed values [thorough: of all listed values]) x area in {absent, \"\", no, yes, x}, both tag orders alternating, on a closed 4-ring; length sweep 0..7 x closed/open/all-equal x tag sets; every id sequence over {1,2,3} of length 0..5; way nodes are full WayNode values: half of all way cases bare refs, the others rotate through 7 annotation patterns (own location per position, same spot at both ends with different ids, ends only, one end only, all on one spot, version without location) plus a dedicated pattern x refs x tag-set sweep and random nodes over small id/version/location alphabets; near-miss keys (rule key, area, type with a space/colon/s/NUL added, a byte dropped, upper case) with firing values; pairs (list key x any key) x pass/fail/no values x both orders; random tag sets in 3-6 (or all) orders; irrelevant and near-miss keys inserted; duplicate keys (model only); relations: type values x other tags x positions; Tags.Find on present/absent/near-miss keys; the run-time table. distinct = distinct token streams; trivial = none."
 	thorough := a.Tier == "thorough"
 
 	rt := osm.VerifPolyConditions()
@@ -425,6 +519,11 @@ func main() {
 	for _, k := range corpus {
 		w.Add(wayCase("corpus", k.ids, k.tags))
 	}
+	// open way 1,2,3,4,5 whose end nodes are different nodes on the same spot (seeded C18-3)
+	w.Add(wayCaseN("corpus", annotate([]int64{1, 2, 3, 4, 5}, 2), osm.Tags{{Key: "building", Value: "yes"}}))
+	w.Add(wayCaseN("corpus", annotate([]int64{1, 2, 3, 4, 5}, 4), osm.Tags{{Key: "building", Value: "yes"}}))
+	// closed way whose equal end refs carry different locations and versions
+	w.Add(wayCaseN("corpus", annotate([]int64{1, 2, 3, 4, 1}, 1), osm.Tags{{Key: "building", Value: "yes"}}))
 
 	// 1. single-key sweep
 	n := 0
@@ -546,6 +645,45 @@ func main() {
 		{1, 2, 3, 4, 5, 6, 7, 8, 9, 1}, {1, 2, 3, 4, 5, 6, 7, 8, 9, 10},
 	} {
 		w.Add(wayCase("ids", ids, osm.Tags{{Key: "building", Value: "yes"}}))
+	}
+
+	// way nodes with annotations: every annotation pattern x open/closed/short refs x tag sets.
+	// Closedness is a matter of the refs only: equal ids with different locations are closed,
+	// different ids on the same spot are not.
+	for _, ids := range [][]int64{
+		{1, 2, 3, 4, 5}, {1, 2, 3, 4, 1}, {1, 2, 3, 4}, {1, 2, 3, 1}, {1, 2, 1}, {1, 2, 3}, {1, 1}, {1}, {},
+		{1, 2, 3, 4, 5, 6}, {1, 2, 3, 4, 5, 1}, {5, 5, 5, 5}, {1, 2, 2, 3},
+	} {
+		for pat := 0; pat < nPatterns; pat++ {
+			for _, ts := range tagsets {
+				w.Add(wayCaseN("waynodes", annotate(ids, pat), ts))
+			}
+			w.Count(fmt.Sprintf("waynodes.pattern_%d", pat))
+		}
+	}
+	// random way nodes over small alphabets, so that ids, versions and locations coincide often
+	nwn := int(300 * a.Scale)
+	if thorough {
+		nwn = int(6000 * a.Scale)
+	}
+	locs := []int64{0, 10000000, 20000000, 15000000}
+	for x := 0; x < nwn; x++ {
+		l := rng.Intn(7)
+		ns := make([]wn, l)
+		for i := range ns {
+			ns[i] = wn{id: int64(1 + rng.Intn(4))}
+			if rng.Intn(4) != 0 {
+				ns[i].ann = true
+				ns[i].ver = int64(rng.Intn(3))
+				ns[i].cs = int64(rng.Intn(3))
+				ns[i].lat = locs[rng.Intn(len(locs))]
+				ns[i].lon = locs[rng.Intn(len(locs))]
+			}
+		}
+		if l >= 2 && rng.Intn(3) == 0 { // same spot, same version at both ends, whatever the ids
+			ns[l-1].ann, ns[l-1].ver, ns[l-1].cs, ns[l-1].lat, ns[l-1].lon = ns[0].ann, ns[0].ver, ns[0].cs, ns[0].lat, ns[0].lon
+		}
+		w.Add(wayCaseN("waynodes-random", ns, tagsets[1+rng.Intn(3)]))
 	}
 
 	// every id sequence over {1,2,3} of length 0..5 (all first/last/length patterns)
@@ -734,6 +872,10 @@ func main() {
 		c3.Toks[len(c3.Toks)-1] = 0
 		c3.Canary, c3.OracleFail = 1, ""
 		w.Add(c3)
+		c6 := wayCaseN("", annotate([]int64{1, 2, 3, 4, 5}, 2), osm.Tags{{Key: "building", Value: "yes"}})
+		c6.Toks[len(c6.Toks)-1] = 2 // an open way with a duplicate location at both ends reported as area
+		c6.Canary, c6.OracleFail = 1, ""
+		w.Add(c6)
 		c5 := findCase("", osm.Tags{{Key: "name", Value: "x"}, {Key: "area", Value: "yes"}}, "area")
 		c5.Toks[len(c5.Toks)-1] ^= 1 // last byte of the observed value
 		c5.Canary, c5.OracleFail = 1, ""
